@@ -83,7 +83,11 @@ def main():
     import c12_posterior
 
     if ck.args.replay:
-        sys.exit(c12_posterior.replay_file(ck.args.replay))
+        import json as _json
+
+        if _json.load(open(ck.args.replay)).get("key", "").startswith("replay:"):
+            sys.exit(c12_posterior.replay_file(ck.args.replay))
+        sysrun.replay(ck, "C12", ck.args.replay)
     comp = c12_posterior.component_part(ck)   # Posterior.tla: enumerated posterior() cases replayed into the real Sampler.posterior
     cov = sysrun.model_part(ck, "C12", variants=[], tier=ck.tier)
     cov["states"] += comp["states"]
